@@ -4,6 +4,41 @@ SOURCE_COMMITS = []
 NOT_BUILT_REASON = {}
 
 META = {
+    "C02": {
+        "technique": "rapid PBT through dockerlog.Querier + Engine.Eval over a fake Docker daemon: reference selection model, origin-label check, requested-window check",
+        "text": "Generated inventories and selectors are evaluated end to end; the set of containers that received a ContainerLogs call must equal the reference selection (absent label = empty string, anchored regexes), every returned line must carry exactly the label map of the container that wrote it, and every ContainerLogs call must ask for the query window truncated to seconds with stdout+stderr+timestamps.",
+        "note": "The built-in label names (container, container_id, ...) are taken from the code as the documented API. Trusted base: Go regexp; fake daemon.",
+    },
+    "C05": {
+        "technique": "rapid PBT: grammar-derived query models printed under generated layouts, parsed tree compared with a tree built directly from the model; catalogue of forbidden texts; structured coverage-guided fuzzing (rapid.MakeFuzz) in thorough",
+        "text": "The harness's own query model is the ground truth: it is printed by the harness's printer under a generated layout and converted, without parsing, into the repository's AST; logql.Parse of the text must produce the same tree (parenthesis wrappers erased, regexes by source) for every layout, with literal values computed from the harness's own unit tables. 75 rule-violating texts built around generated parts must be rejected.",
+        "note": "The canonical dump prints every field of every AST node; the converter and printer are the trusted base. Quirks of Go's token scanner (0b, P/E units) are excluded as outside the grammar.",
+    },
+    "C06": {
+        "technique": "rapid PBT with by-construction ground truth: lines rendered from generated structure, labels/line compared with the reference extraction through Engine.Eval",
+        "text": "For each parser stage the expected label set is known from the structure the line was rendered from (not by re-parsing); the engine's entry must keep the line, expose exactly the requested fields with exactly their values (nested values JSON-equivalent) overriding existing labels, add no other label, and flag malformed lines with __error__ without dropping or changing them.",
+        "note": "Trusted base: encoding/json for JSON-equivalence of nested values, Go regexp for the regexp stage, the harness's JSON/logfmt renderers.",
+    },
+    "C07": {
+        "technique": "rapid PBT against the harness's own template expansion / rename / drop / keep model; decolorize by construction",
+        "text": "Rewriting stages are evaluated through Engine.Eval and compared with a reference that expands templates of a mini-grammar itself, applies renames and drop/keep lists from the statement, and knows the plain chunks a coloured line was assembled from.",
+        "note": "Templates are restricted to a mini-grammar whose expansion the harness can compute independently of text/template.",
+    },
+    "C14": {
+        "technique": "rapid PBT with fault injection and harness-owned completion orders; history invariants at the fake daemon (error surfaced, opened == closed, no read after return)",
+        "text": "One fault (list, open, transport error at a byte, cut frame body, corrupt timestamp/separator, daemon error frame) is injected at a generated place into one of several containers while the fake daemon owns the order in which concurrent opens complete; a fault inside the data the query must read must surface as an error, fault-free runs must succeed without loss, and in every run every reader handed out must have been closed and never read after Eval returned - for log, range, vector, binary and failing-at-build query shapes.",
+        "note": "Faults behind a limit are only checked for close accounting. Header cuts are clean ends by C03.",
+    },
+    "C17": {
+        "technique": "rapid PBT over grammar-derived, token-mutated and random queries x hostile log content with recover() + watchdog; coverage-guided native fuzzing in thorough",
+        "text": "Engine.Eval must return (error or well-typed result) for every generated query/content/parameter combination; panics are caught by recover and shrunk, hangs by a 20s watchdog per case.",
+        "note": "Termination is decided as 'returns within 20s' (normal cases take microseconds). Resource exhaustion of the test process is inconclusive.",
+    },
+    "C18": {
+        "technique": "schedule enumeration (all n! completion orders, n<=5) x repetition for map order, canonical-result equality; byte-identical rendering via the real cobra command; Go race detector on a reduced run",
+        "text": "The same query over the same fake container logs is evaluated under every completion order of the concurrent opens and repeated with fresh engines; all canonical results must be identical; rendered output (colour off, distinct timestamps) must be byte-identical; a -race build of the same test must stay silent.",
+        "note": "Weakest claim of the set: only completion orders are owned by the harness; the race detector judges only interleavings that occurred.",
+    },
     "C01": {
         "technique": "rapid PBT: generated data x grammar-derived log queries x storage capability subsets, compared with a reference LogQL pipeline model and differentially between capability configurations",
         "text": "Engine.Eval over a mock storage is compared with an independent reference evaluator (selector, line filters incl. ip(), typed label predicates, json/logfmt/regexp/pattern by construction, distinct, rewriting stages) on the multiset of (timestamp, line, labels); each query runs under a drawn subset of the 2^4 x 2^4 offloadable operators and under none, and both runs must agree. Exploration of a large structured input space with measured class distribution.",
